@@ -213,6 +213,7 @@ def q_c09_frame_decode(bodies):
                 problems.append(("a decoded frame consumes exactly its 4 + len bytes from the front of the buffer; what follows the frame stays buffered", v, tag))
             continue
         problems.append(("decode answers need-more-data, an error, or one message", "sat", tag + " ret=%s" % ret[:60]))
+    problems.sort(key=lambda p: p[1] == "inconclusive")  # a confirmed problem names the check
     return dict(name=name, property="C09", verdict=_verdict(problems), detail="feasible paths=%d; MAX_MESSAGE_SIZE=%d; problems: %s" % (ncases, mx, problems[:3] or "none"),
                 functions=[body.name, "bytes::BytesMut::{len,advance}, slice indexing, postcard::from_bytes (modelled: integer lengths / symbolic verdict)"],
                 queries=nq, cases=ncases, witness="c09frame",
@@ -342,6 +343,7 @@ def q_c09_frame_encode(bodies):
         v = implied(spec)
         if v != "unsat":
             problems.append(("a frame is appended to whatever the destination buffer already holds: header at [L0, L0+4), body at [L0+4, L0+4+M), nothing below L0 is overwritten (frames can be encoded back to back)", v, tag))
+    problems.sort(key=lambda p: p[1] == "inconclusive")  # a confirmed problem names the check
     return dict(name=name, property="C09", verdict=_verdict(problems), detail="feasible paths=%d; problems: %s" % (ncases, problems[:3] or "none"),
                 functions=[body.name, "bytes::BytesMut::{put_u32,len,resize}, slice indexing, postcard::{serialize_with_flavor,to_slice} (modelled: integer lengths / symbolic verdict)"],
                 queries=nq, cases=ncases, witness="c09frame",
